@@ -147,8 +147,8 @@ class Gen:
                   "var ms%d = [];" % self.n, "for x in %s { ms%d.push(x.describe); }" % (o, self.n),
                   "for m in ms%d { print(m()); }" % self.n]
         if r.random() < 0.4:
-            s += ["try { print(%s[0].nothing); } catch e { print(e); }" % o,
-                  "try { %s[0].sum(1, 2); } catch e { print(e); }" % o]
+            s += ["try { print(%s[0].nothing); } catch e { print(e.context); }" % o,
+                  "try { %s[0].sum(1, 2); } catch e { print(e.context); }" % o]
         return s
 
     # --- fibers
@@ -190,7 +190,7 @@ class Gen:
             return s
         if kind == "finished":
             s = ["var f%d = Fiber.new(|| { return %d; });" % (n, r.randint(0, 99)), "print(f%d.call());" % n]
-            if r.random() < 0.5:
+            if r.random() < 0.15:
                 # error kind and message must be the same in every build (the error ends the program)
                 s.append("f%d.call();" % n)
             return s
@@ -238,8 +238,8 @@ class Gen:
             bad = r.choice(["[1, 2, 3][%d]" % r.randint(3, 9), "nil.foo", "1 + \"a\"", "undefined_name_%d" % n,
                             "\"abc\"[%d]" % r.randint(5, 9), "{}.insert([], 1)", "(1, 2)[5]", "[].pop()",
                             "(|a, b| a)(1)", "\"x\".to_num()", "(0..3)[7]"])
-            s = ["try { print(%s); } catch e { print(e); } finally { print(\"f%d\"); }" % (bad, n)]
-            if r.random() < 0.25:
+            s = ["try { print(%s); } catch e { print(e); print(e.context); } finally { print(\"f%d\"); }" % (bad, n)]
+            if r.random() < 0.08:
                 s.append("print(%s);" % bad)    # uncaught: same kind, same message, same trace everywhere
             return s
         if kind == "loop":
@@ -258,17 +258,17 @@ class Gen:
         n = self.n = self.n + 1
         d = r.choice([10, 40, 60, 61, 62, 63, 64, 65, 70, 200])
         s = ["fn rec%d(k) { if k == 0 { return 0; } return 1 + rec%d(k - 1); }" % (n, n)]
-        how = r.choice(["catch", "catch", "plain", "method", "fiber"])
+        how = r.choice(["catch", "catch", "catch", "method", "fiber", "method", "fiber", "plain"])
         if how == "catch":
-            s.append("try { print(rec%d(%d)); } catch e { print(e); }" % (n, d))
+            s.append("try { print(rec%d(%d)); } catch e { print(e.context); }" % (n, d))
             s.append("print(rec%d(5));" % n)
         elif how == "plain":
             s.append("print(rec%d(%d));" % (n, d))
         elif how == "method":
             s += ["#[constructor(new)]", "class R%d { fn go(self, k) { if k == 0 { return 0; } return 1 + self.go(k - 1); } }" % n,
-                  "try { print(R%d.new().go(%d)); } catch e { print(e); }" % (n, d)]
+                  "try { print(R%d.new().go(%d)); } catch e { print(e.context); }" % (n, d)]
         else:
-            s += ["var rf%d = Fiber.new(|| { try { return rec%d(%d); } catch e { return \"in fiber: ${e}\"; } });" % (n, n, d),
+            s += ["var rf%d = Fiber.new(|| { try { return rec%d(%d); } catch e { return \"in fiber: ${e.context}\"; } });" % (n, n, d),
                   "print(rf%d.call());" % n]
         return s
 
@@ -298,10 +298,10 @@ class Gen:
                 "print(s%d); print(s%d.len()); print(s%d.count_chars());" % (n, n, n),
                 "var parts%d = s%d.split(\"%d\");" % (n, n, r.randint(0, 9)),
                 "print(parts%d.len()); print(parts%d[0]);" % (n, n),
-                "print(s%d.replace(\"1\", \"<one>\").find(\"<one>\"));" % n,
+                "print(s%d.replace(\"1\", \"<one>\").find(\"<one>\", 0));" % n,
                 "var cs%d = 0; for c in s%d { if c.is_digit() { cs%d += 1; } } print(cs%d);" % (n, n, n, n),
                 "var sw%d = s%d.starts_with(\"a\"); var mix%d = [1, (2, \"t\"), {\"k\": nil}];" % (n, n, n),
-                "print(\"${sw%d} ${mix%d} ${1 / 3} ${1e21} ${0.1 + 0.2}\");" % (n, n)]
+                "print(\"${sw%d} ${mix%d} ${1 / 3} ${100000000 * 100000000 * 100000} ${0.1 + 0.2}\");" % (n, n)]
 
     # --- maps
     def maps(self):
@@ -341,12 +341,13 @@ class Gen:
     def alloc(self):
         r = self.rng
         n = self.n = self.n + 1
-        k = r.choice([300, 600, 1000])
         kind = r.choice(["vecs", "strings", "instances", "closures", "fibers", "maps"])
+        k = {"vecs": 600, "strings": 250, "instances": 2000, "closures": 1000, "fibers": 400, "maps": 800}[kind]
+        k = r.randint(k // 2, k)
         keep = r.randint(2, 9)
         head = ["var keep%d = [];" % n]
         if kind == "vecs":
-            body = "var v = [i, [i + 1, (i, \"t${i}\")]]; if i %% %d == 0 { keep%d.push(v); }" % (keep * 10, n)
+            body = "var v = [i, [i + 1, (i, i * 2)]]; if i %% %d == 0 { keep%d.push(v); }" % (keep * 10, n)
         elif kind == "strings":
             body = "var s = \"s${i}\" + \"-\" + \"${i * 2}\"; if i %% %d == 0 { keep%d.push(s); }" % (keep * 10, n)
         elif kind == "instances":
@@ -357,10 +358,8 @@ class Gen:
         elif kind == "closures":
             body = "var j = i; var f = || j + 1; if i %% %d == 0 { keep%d.push(f); }" % (keep * 10, n)
         elif kind == "fibers":
-            k = min(k, 400)
             body = "var f = Fiber.new(|x| { Fiber.yield(x + 1); return x; }); f.call(i); if i %% %d == 0 { keep%d.push(f); }" % (keep * 10, n)
         else:
-            k = min(k, 800)
             body = "var m = {\"a\": i, i: [i]}; if i %% %d == 0 { keep%d.push(m); }" % (keep * 10, n)
         tail = ["print(keep%d.len());" % n]
         if kind == "closures":
